@@ -120,7 +120,9 @@ def run(c):
     if not impl or not model:
         return
     # (a script that aborts the process is re-run alone in streaming mode: its trace prefix is not lost)
-    runs = rtlib.run_scripts(impl, reqs[:ncorpus], timeout=300) + rtlib.run_scripts(impl, reqs[ncorpus:])
+    flaky = collections.Counter()
+    runs = rtlib.run_scripts(impl, reqs[:ncorpus], timeout=300, stats=flaky) + rtlib.run_scripts(impl, reqs[ncorpus:], stats=flaky)
+    c.cov["batch_runner_confirmations"] = dict(flaky)
     itrace = [x.cmp() for x in runs]
     # the spec side judges the trace up to the point where a panic started (what follows is unwinding)
     mout = run_lines([model], [r + "\t" + x.judged() for r, x in zip(reqs, runs)], timeout=900)
